@@ -697,8 +697,7 @@ void client::ssl_handshake_data_connection(data_connection & connection, ssl::co
 {
     SSL_SESSION *ssl_session;
 
-    long cache_mode = SSL_CTX_get_session_cache_mode(ssl_context.native_handle());
-    if (cache_mode & SSL_SESS_CACHE_CLIENT)
+    if (ssl::is_session_resumption_enabled(ssl_context))
     {
         /* Reuse the control connection SSL session. */
         ssl_session = control_connection_.get_ssl_session();
